@@ -96,13 +96,17 @@ def _run_mutate(world, ext, data, output, backup, list_name, script, explicit_si
         fails.append({"clause": clause, "expected": core.jsonable(expected), "observed": core.jsonable(observed)})
 
     files = {"in" + ext: data, "other.txt": b"unrelated\n"}
+    # bystanders whose names resemble the working files (temporary / swap / backup naming habits): none may be touched
+    for n in ("in" + ext + ".tmp", "out" + ext + ".tmp", "bak" + ext + ".tmp"):
+        files[n] = b"bystander " + n.encode()
     if stale:
         files["out" + ext] = STALE
         files["bak" + ext] = STALE + b"#GENRE:b;\n"
     world.reset(files)
     inp = path_of("in" + ext)
     out = path_of("out" + ext) if output else None
-    bak = {"none": None, "other": path_of("bak" + ext), "input": inp, "output": out}[backup]
+    bakname = {"other": "bak" + ext, "percent": "100%Pure %d%%" + ext, "tmpname": "in" + ext + ".tmp"}.get(backup)
+    bak = {"none": None, "input": inp, "output": out}.get(backup, path_of(bakname) if bakname else None)
     tried = LISTS[list_name] or MU.ENCODINGS
     enc = MU.expected_encoding(data, tried)
     if explicit_single and enc:
@@ -153,7 +157,7 @@ def _run_mutate(world, ext, data, output, backup, list_name, script, explicit_si
     except Exception:
         pass
     outname = ("out" if output else "in") + ext
-    allowed = {outname} | ({"bak" + ext} if bak else set())
+    allowed = {outname} | ({bakname} if bak else set())
     changed = {k for k in set(after) | set(before) if after.get(k) != before.get(k)}
     if not changed <= allowed:
         fail("a file other than the output / backup was created or changed", sorted(allowed), sorted(changed))
@@ -169,7 +173,7 @@ def _run_mutate(world, ext, data, output, backup, list_name, script, explicit_si
         fail("the output file does not decode / parse in the detected encoding", "simfile at block exit", f"{type(e).__name__}: {e}")
     if bak:
         try:
-            got_bak = MU.canon_obs(MU.parse_as(ext, after["bak" + ext], enc, native))
+            got_bak = MU.canon_obs(MU.parse_as(ext, after[bakname], enc, native))
             if got_bak != state["entry"]:
                 fail("the backup file does not parse to the simfile as it stood at block entry", state["entry"], got_bak)
         except core.WatchdogTimeout:
@@ -346,13 +350,16 @@ def explore_shard(acc, shard):
                         continue  # native text mode translates CRLF on reading; MemoryFS keeps it inside values
                     data = MU.file_bytes(ext, payload, with_chart, key_only=with_chart, variant=variant)
                     for output in (False, True):
-                        for backup in ("none", "other", "input", "output"):
+                        for backup in ("none", "other", "input", "output", "percent", "tmpname"):
                             if backup == "output" and not output:
                                 continue
                             for ln, single in (("default", False), ("reversed", False), ("default", True)):
                                 can_be_stale = output or backup == "other"
+                                odd_backup = backup in ("percent", "tmpname")
+                                if odd_backup and (ln != "default" or single or variant is not None):
+                                    continue
                                 rel_opts = (False, True) if fsname == "nat" and ln == "default" and not single else (False,)
-                                for script, stale, relative in ((sc, st, rl) for sc in scripts for st in ((False, True) if can_be_stale and len(sc) <= 1 else (False,)) for rl in (rel_opts if len(sc) <= 1 and not st else (False,))):
+                                for script, stale, relative in ((sc, st, rl) for sc in (scripts[:3] if odd_backup else scripts) for st in ((False, True) if can_be_stale and len(sc) <= 1 else (False,)) for rl in (rel_opts if len(sc) <= 1 and not st else (False,))):
                                     if len(script) >= 2 and not full and (ln != "default" or single or backup in ("input", "output")):
                                         continue
                                     case = {"kind": "mutate", "fs": fsname, "ext": ext, "data": data.hex(), "output": output, "backup": backup, "list": ln, "script": list(script), "explicit_single": single, "stale": stale, "relative": relative}
@@ -371,6 +378,8 @@ def explore_shard(acc, shard):
                                         acc.outcome("edit adds a character the detected encoding lacks")
                                     if backup in ("input", "output"):
                                         acc.outcome("clashing backup name")
+                                    if backup in ("percent", "tmpname"):
+                                        acc.outcome("backup name with % signs / named like a temporary file")
                                     enc = MU.expected_encoding(data, LISTS[ln] or MU.ENCODINGS)
                                     if enc and enc != "utf-8":
                                         acc.outcome(f"file read and written in {enc}")
@@ -414,13 +423,14 @@ def explore(run):
         + f" embedded as '#TITLE:<payload>;' in .sm and .ssc, in a comment-only .sm and in a charts-only .ssc x tried lists {list(LISTS)} + explicit encoding= ; "
         f"B: {len(boundary_payloads())} multi-byte payloads placed at every offset N-d (d = 0..length) for N in {list(BOUNDARIES_THOROUGH if run.thorough() else BOUNDARIES_QUICK)}, with and without text behind, x 3 lists x both filesystems; "
         "R: every representative payload repeated 2, 15, 16, 17, 64 and 1000 times x 3 lists x both filesystems; "
-        f"M: one representative payload per decodability signature ({nsig} signatures found by brute force) x 8 layouts (with/without chart, unterminated, CRLF, empty file, comments only, charts only, long one-line lists) x {{.sm,.ssc}} x output name x backup {{none, other, =input, =output}} x "
+        f"M: one representative payload per decodability signature ({nsig} signatures found by brute force) x 8 layouts (with/without chart, unterminated, CRLF, empty file, comments only, charts only, long one-line lists) x {{.sm,.ssc}} x output name x backup {{none, other, =input, =output, a name with % signs, a name like a temporary file}} x "
         f"encoding list {{default, reversed, explicit}} x filesystem x edit scripts of length <= {maxlen} over {MU.EDITS} x (for scripts of <= 1 edit) output/backup names free or already taken by older files x (native) absolute names or names relative to the current directory; after each run the whole filesystem is compared with the model and a no-op mutate is run on the written file. "
         "Non-trivial = payload not decodable everywhere / any edit, output or backup."
     )
     run.assumptions = ["Python's codecs define what 'decodes' means", "values contain no bare carriage return", "MemoryFS text streams do no newline translation, native ones do (universal newlines)"]
     core.require(acc.outcomes["no tried encoding decodes (UnicodeDecodeError)"] > 0, "error clause not exercised")
     core.require(acc.outcomes["clashing backup name"] > 0, "no clashing backup name")
+    core.require(acc.outcomes["backup name with % signs / named like a temporary file"] > 0, "no odd backup name")
     core.require(acc.outcomes["payload repeated many times"] > 0, "no repeated payload")
     core.require(acc.outcomes["file without any header property"] > 0, "no header-less file")
     core.require(acc.outcomes["file names relative to the current directory"] > 0, "no relative names")
